@@ -2,7 +2,7 @@
    argument list and every literal; the only finite computation is the registry check at the end. *)
 From Coq Require Import ZArith NArith List Bool String Ascii Lia.
 Require Import OV.Autocast.Autocast.
-Require OV.Gen.Schemas.
+Require OV.Gen.Schemas OV.Gen.C12Decisions.
 Import ListNotations.
 Open Scope string_scope.
 
@@ -397,16 +397,24 @@ Proof.
   destruct (positions_pairwise s _ ps Hs Hp). repeat split; auto. eapply positions_ok; eauto.
 Qed.
 
-(* converter: the literal becomes Constant(default dtype) [-> CastLike(sibling)]; its element type
-   when the op runs is the one the specification names *)
+Lemma plainb_ir l : plainb l = true -> ir_default_dtype l = default_dtype l.
+Proof. unfold plainb. intros H. apply andb_true_iff in H. destruct H as [_ H]. apply N.eqb_eq in H. exact H. Qed.
+Lemma plainb_ok l : plainb l = true -> builder_list_ok l = true.
+Proof. unfold plainb. intros H. apply andb_true_iff in H. destruct H as [H _]. exact H. Qed.
+Lemma plainb_builder_default l : plainb l = true -> builder_default l = default_dtype l.
+Proof. intros H. unfold builder_default. rewrite (plainb_ok l H). reflexivity. Qed.
+
+(* converter: the literal becomes Constant(ir.tensor's dtype) [-> CastLike(sibling)]; its element type
+   when the op runs is the one the specification names -- for PLAIN literals (scalars, flat lists of one
+   Python type: plain_of_homog); nested and mixed lists: static_nested_float_refuted below *)
 Theorem static_eq_spec : forall s args slots pre post l p outs,
-  schema_okb s = true ->
+  schema_okb s = true -> plainb l = true ->
   annotate s args = OK slots -> slots = (pre ++ (ALit l, p) :: post)%list ->
   promote_static s args = OK outs ->
   exists o, nth_error outs (List.length pre) = Some o /\ out_literal o = Some l /\
             exists d, out_dtype o = Some d /\ spec_dtype (pre ++ post)%list l p d.
 Proof.
-  intros s args slots pre post l p outs Hs Ha Hsl Hp.
+  intros s args slots pre post l p outs Hs Hpl Ha Hsl Hp.
   unfold promote_static in Hp. rewrite Ha in Hp. simpl in Hp. inversion Hp; subst outs; clear Hp.
   destruct (annotate_facts s args slots Hs Ha) as [Hpa [_ Hok]].
   pose proof (literal_binding dtype (fun d _ => d) p_akey info_dtype false
@@ -417,7 +425,7 @@ Proof.
   destruct (match p_akey p with Some k => _ | None => None end) as [v|]; intros H.
   - destruct H as [d [kn [Hv [sl [Hin Hsib]]]]]. subst v. simpl. split; auto.
     exists d; split; auto. left; eauto.
-  - simpl. split; auto. exists (default_dtype l); split; auto. right; auto.
+  - simpl. split; auto. exists (default_dtype l); split; [rewrite (plainb_ir l Hpl); auto|]. right; auto.
 Qed.
 
 Theorem eager_eq_spec : forall s args slots pre post l p outs,
@@ -441,25 +449,26 @@ Proof.
   - simpl. split; auto. exists (default_dtype l); split; auto. right; auto.
 Qed.
 
-Theorem builder_eq_spec : forall s args slots pre post l p outs,
-  schema_okb s = true ->
+Theorem builder_eq_spec : forall named s args slots pre post l p outs,
+  schema_okb s = true -> plainb l = true ->
   annotate s args = OK slots -> slots = (pre ++ (ALit l, p) :: post)%list ->
-  promote_builder s args = OK outs ->
+  promote_builder_v named s args = OK outs ->
   exists o, nth_error outs (List.length pre) = Some o /\ out_literal o = Some l /\
             exists d, out_dtype o = Some d /\ spec_dtype (pre ++ post)%list l p d.
 Proof.
-  intros s args slots pre post l p outs Hs Ha Hsl Hp.
-  unfold promote_builder in Hp. rewrite Ha in Hp. simpl in Hp. inversion Hp; subst outs; clear Hp.
+  intros named s args slots pre post l p outs Hs Hpl Ha Hsl Hp.
+  unfold promote_builder_v in Hp. rewrite Ha in Hp. simpl in Hp. inversion Hp; subst outs; clear Hp.
   destruct (annotate_facts s args slots Hs Ha) as [_ [Hpb Hok]].
   pose proof (literal_binding (dtype * bool) (fun d k => (d, k)) p_bkey info_builder true
                 (fun d k => eq_refl) (fun l => eq_refl) eq_refl bkey_of_skey
                 slots pre post l p Hpb Hok Hsl) as H; simpl in H.
   subst slots. unfold cast_inputs. rewrite nth_error_map_mid.
-  eexists; split; [reflexivity|]. unfold cast_slot; simpl. revert H.
+  eexists; split; [reflexivity|]. unfold cast_slot, cast_builder_v; simpl.
+  rewrite (plainb_ok l Hpl). simpl. revert H.
   destruct (match p_bkey p with Some k => _ | None => None end) as [v|]; intros H.
   - destruct H as [d [kn [Hv [sl [Hin Hsib]]]]]. subst v. simpl.
     destruct kn; simpl; (split; auto; exists d; split; auto; left; eauto).
-  - simpl. split; auto. exists (default_dtype l); split; auto. right; auto.
+  - simpl. split; auto. exists (default_dtype l); split; [rewrite (plainb_builder_default l Hpl); auto|]. right; auto.
 Qed.
 
 (* every other operand is passed through untouched, in all three front ends *)
@@ -471,14 +480,14 @@ Proof.
   - eauto.
 Qed.
 
-Theorem tensors_pass_through : forall s args outs i o,
-  (promote_static s args = OK outs \/ promote_eager s args = OK outs \/ promote_builder s args = OK outs) ->
+Theorem tensors_pass_through : forall named s args outs i o,
+  (promote_static s args = OK outs \/ promote_eager s args = OK outs \/ promote_builder_v named s args = OK outs) ->
   nth_error outs i = Some o ->
   exists a, nth_error args i = Some a /\
     match a with ALit l => out_literal o = Some l | _ => o = OKeep a end.
 Proof.
-  intros s args outs i o H Hn.
-  unfold promote_static, promote_eager, promote_builder in H.
+  intros named s args outs i o H Hn.
+  unfold promote_static, promote_eager, promote_builder_v in H.
   destruct (annotate s args) as [slots|] eqn:Ha; simpl in H;
     [|destruct H as [H|[H|H]]; discriminate].
   destruct (annotate_args s args slots Ha) as [Hargs _].
@@ -497,8 +506,9 @@ Proof.
     intros a y; destruct a; simpl; auto. destruct y; auto.
   - eapply (Hgen dtype p_akey info_dtype cast_eager false); [|exact H1].
     intros a y; destruct a; simpl; auto. destruct y; auto.
-  - eapply (Hgen (dtype * bool)%type p_bkey info_builder cast_builder true); [|exact H1].
-    intros a y; destruct a; simpl; auto. destruct y as [[d [|]]|]; auto.
+  - eapply (Hgen (dtype * bool)%type p_bkey info_builder (cast_builder_v named) true); [|exact H1].
+    intros a y; destruct a; simpl; auto.
+    destruct (builder_list_ok l || named); simpl; auto. destruct y as [[d [|]]|]; auto.
 Qed.
 
 (* ------------------------------------------------------------------------------------------ *)
@@ -559,19 +569,19 @@ Proof.
 Qed.
 
 (* the three front ends give the literal one and the same element type *)
-Theorem frontends_agree : forall s args slots pre post l p o1 o2 o3,
-  schema_okb s = true -> annotate s args = OK slots -> uniform slots ->
+Theorem frontends_agree : forall named s args slots pre post l p o1 o2 o3,
+  schema_okb s = true -> plainb l = true -> annotate s args = OK slots -> uniform slots ->
   slots = (pre ++ (ALit l, p) :: post)%list ->
-  promote_static s args = OK o1 -> promote_eager s args = OK o2 -> promote_builder s args = OK o3 ->
+  promote_static s args = OK o1 -> promote_eager s args = OK o2 -> promote_builder_v named s args = OK o3 ->
   exists a b c, nth_error o1 (List.length pre) = Some a /\ nth_error o2 (List.length pre) = Some b /\
                 nth_error o3 (List.length pre) = Some c /\
                 out_dtype a = Some (spec_fn slots l p) /\ out_dtype b = Some (spec_fn slots l p) /\
                 out_dtype c = Some (spec_fn slots l p).
 Proof.
-  intros s args slots pre post l p o1 o2 o3 Hs Ha Hu Hsl H1 H2 H3.
-  destruct (static_eq_spec s args slots pre post l p o1 Hs Ha Hsl H1) as [a [Na [_ [da [Da Sa]]]]].
+  intros named s args slots pre post l p o1 o2 o3 Hs Hpl Ha Hu Hsl H1 H2 H3.
+  destruct (static_eq_spec s args slots pre post l p o1 Hs Hpl Ha Hsl H1) as [a [Na [_ [da [Da Sa]]]]].
   destruct (eager_eq_spec s args slots pre post l p o2 Hs Ha Hsl H2) as [b [Nb [_ [db [Db Sb]]]]].
-  destruct (builder_eq_spec s args slots pre post l p o3 Hs Ha Hsl H3) as [c [Nc [_ [dc [Dc Sc]]]]].
+  destruct (builder_eq_spec named s args slots pre post l p o3 Hs Hpl Ha Hsl H3) as [c [Nc [_ [dc [Dc Sc]]]]].
   pose proof (spec_fn_correct slots pre post l p Hsl) as Sf.
   exists a, b, c. repeat split; auto.
   - rewrite Da; f_equal; eapply spec_dtype_unique; eauto.
@@ -668,7 +678,7 @@ Theorem out_value_eq_spec : forall o l d vs,
   (forall d0, o = OCastLike l d0 d -> d0 = default_dtype l /\ exists v0s, np_cast l d0 = OK v0s) ->
   np_cast l d = OK vs -> out_value o = OK vs.
 Proof.
-  intros o l d vs Hh Hl Hd Hc Hv. destruct o as [a|l' d'|l' d0 d']; simpl in *; try discriminate.
+  intros o l d vs Hh Hl Hd Hc Hv. destruct o as [a|l' d'|l' d0 d'|l']; simpl in *; try discriminate.
   - inversion Hl; inversion Hd; subst; exact Hv.
   - inversion Hl; inversion Hd; subst.
     destruct (Hc d0 eq_refl) as [E [v0s H0]]. subst d0. eapply cast_paths_agree; eauto.
@@ -678,8 +688,8 @@ Qed.
 (* the constant cache                                                                         *)
 
 Definition reach_key (k : ckey) : Prop := exists d, snd k = resolve (fst k) d.
-Definition entry_ok (c : cache) : Prop :=
-  forall k t, In (k, t) c -> reach_key k /\ create (fst k) (snd k) = OK t.
+Definition entry_ok (w : bool) (c : cache) : Prop :=
+  forall k t, In (k, t) c -> reach_key k /\ create_v w (fst k) (snd k) = OK t.
 
 Lemma b2z_inj a b : b2z a = b2z b -> a = b.
 Proof. destruct a, b; simpl; intros; auto; discriminate. Qed.
@@ -700,28 +710,32 @@ Proof.
   - destruct b; reflexivity.
 Qed.
 
-Lemma key_signed_scalar a b d : key_eq_signed a b = true -> np_cast_scalar a d = np_cast_scalar b d.
+Lemma np_cast_int_bool_v w b d : np_cast_scalar_v w (SInt (b2z b)) d = np_cast_scalar_v w (SBool b) d.
+Proof.
+  destruct w; [|apply np_cast_int_bool].
+  unfold np_cast_scalar_v. destruct (dclass_of d) as [sg bits| | |] eqn:Hd; try apply np_cast_int_bool.
+  unfold np_cast_scalar. rewrite Hd.
+  apply dclass_bits in Hd. destruct Hd as [?|[?|[?|?]]]; subst bits; destruct sg, b; reflexivity.
+Qed.
+
+Lemma key_signed_scalar w a b d : key_eq_signed a b = true -> np_cast_scalar_v w a d = np_cast_scalar_v w b d.
 Proof.
   destruct a as [x|n1 m1 e1|x], b as [y|n2 m2 e2|y]; simpl; intros H; try discriminate.
   - apply py_eq_int_int in H; subst; reflexivity.
-  - apply py_eq_int_bool in H; subst. apply np_cast_int_bool.
+  - apply py_eq_int_bool in H; subst. apply np_cast_int_bool_v.
   - apply andb_true_iff in H; destruct H as [H H3]. apply andb_true_iff in H; destruct H as [H1 H2].
     apply eqb_prop in H1. apply N.eqb_eq in H2. apply N.eqb_eq in H3. subst; reflexivity.
-  - apply py_eq_bool_int in H; subst. symmetry; apply np_cast_int_bool.
+  - apply py_eq_bool_int in H; subst. symmetry; apply np_cast_int_bool_v.
   - apply py_eq_bool_bool in H; subst; reflexivity.
 Qed.
 
-Lemma key_signed_list d : forall l1 l2, list_eqb key_eq_signed l1 l2 = true ->
-  mapM (fun s => np_cast_scalar s d) l1 = mapM (fun s => np_cast_scalar s d) l2.
+Lemma key_signed_list w d : forall l1 l2, list_eqb key_eq_signed l1 l2 = true ->
+  mapM (fun s => np_cast_scalar_v w s d) l1 = mapM (fun s => np_cast_scalar_v w s d) l2.
 Proof.
   induction l1 as [|a t IH]; destruct l2 as [|b u]; simpl; intros H; try discriminate; auto.
   apply andb_true_iff in H; destruct H as [H1 H2].
-  rewrite (key_signed_scalar a b d H1), (IH u H2). reflexivity.
+  rewrite (key_signed_scalar w a b d H1), (IH u H2). reflexivity.
 Qed.
-
-Lemma key_signed_kind a b : key_eq_signed a b = true ->
-  kind_of a = KBool -> kind_of b = KBool -> default_of_kind (kind_of a) = default_of_kind (kind_of b).
-Proof. intros _ Ha Hb; rewrite Ha, Hb; reflexivity. Qed.
 
 Lemma resolve_none l d : resolve l d = None -> kind_of (head_of l) = KBool.
 Proof. unfold resolve. destruct d; [discriminate|]. destruct (kind_of (head_of l)); auto; discriminate. Qed.
@@ -730,20 +744,20 @@ Lemma opt_dtype_eqb_eq a b : opt_dtype_eqb a b = true -> a = b.
 Proof. destruct a, b; simpl; intros H; try discriminate; auto. apply N.eqb_eq in H; subst; auto. Qed.
 
 (* two requests with the same (fixed) key denote the same tensor *)
-Lemma key_signed_sound k1 k2 : reach_key k1 -> reach_key k2 ->
-  ckey_eqb key_eq_signed k1 k2 = true -> create (fst k1) (snd k1) = create (fst k2) (snd k2).
+Lemma key_signed_sound w k1 k2 : reach_key k1 -> reach_key k2 ->
+  ckey_eqb key_eq_signed k1 k2 = true -> create_v w (fst k1) (snd k1) = create_v w (fst k2) (snd k2).
 Proof.
   destruct k1 as [l1 r1], k2 as [l2 r2]. intros [d1 H1] [d2 H2]. simpl in *.
   unfold ckey_eqb; simpl. intros H.
   apply andb_true_iff in H; destruct H as [H Hr]. apply andb_true_iff in H; destruct H as [Hl Hs].
   apply opt_dtype_eqb_eq in Hr. apply eqb_prop in Hl. rewrite <- Hr in H2. rewrite <- Hr. clear Hr r2.
-  unfold create, np_cast. rewrite Hl.
+  unfold create_v, np_cast_v. rewrite Hl.
   assert (Hd : match r1 with Some d => d | None => default_dtype l1 end
              = match r1 with Some d => d | None => default_dtype l2 end).
   { destruct r1; auto. unfold default_dtype.
     symmetry in H1. apply resolve_none in H1. symmetry in H2. apply resolve_none in H2.
     rewrite H1, H2. reflexivity. }
-  rewrite <- Hd. rewrite (key_signed_list _ _ _ Hs). reflexivity.
+  rewrite <- Hd. rewrite (key_signed_list w _ _ _ Hs). reflexivity.
 Qed.
 
 Lemma cache_find_in eq c k t : cache_find eq c k = Some t ->
@@ -755,37 +769,42 @@ Proof.
   - destruct (IH H) as [k'' [Hin He]]. exists k''; auto.
 Qed.
 
-Lemma get_or_create_ok c l d c' t : entry_ok c ->
-  get_or_create key_eq_signed c l d = OK (c', t) ->
-  entry_ok c' /\ create l (resolve l d) = OK t.
+Lemma get_or_create_ok w named c l d c' t : entry_ok w c ->
+  get_or_create_v w named key_eq_signed c l d = OK (c', t) ->
+  entry_ok w c' /\ denote_v w l d = OK t.
 Proof.
-  intros Hc. unfold get_or_create.
-  destruct (cache_find key_eq_signed c (l, resolve l d)) as [t0|] eqn:Ef.
-  - intros H; inversion H; subst. split; auto.
-    apply cache_find_in in Ef. destruct Ef as [k' [Hin He]].
-    destruct (Hc k' t Hin) as [Hr Hcr].
-    rewrite <- Hcr. apply (key_signed_sound (l, resolve l d) k'); auto. exists d; reflexivity.
-  - destruct (create l (resolve l d)) as [t0|] eqn:Ec; simpl; [|discriminate].
+  intros Hc. unfold get_or_create_v, denote_v.
+  destruct (builder_list_ok l) eqn:Hok.
+  - destruct (cache_find key_eq_signed c (l, resolve l d)) as [t0|] eqn:Ef.
+    + intros H; inversion H; subst. split; auto.
+      apply cache_find_in in Ef. destruct Ef as [k' [Hin He]].
+      destruct (Hc k' t Hin) as [Hr Hcr].
+      rewrite <- Hcr. apply (key_signed_sound w (l, resolve l d) k'); auto. exists d; reflexivity.
+    + destruct (create_v w l (resolve l d)) as [t0|] eqn:Ec; simpl; [|discriminate].
+      intros H; inversion H; subst. split; auto.
+      intros k t1 Hin. apply in_app_or in Hin. destruct Hin as [Hin|[Hin|[]]]; [apply Hc; auto|].
+      inversion Hin; subst. simpl. split; auto. exists d; reflexivity.
+  - destruct named; [|discriminate].
+    destruct (create_ir_v w l d) as [t0|] eqn:Ec; simpl; [|discriminate].
     intros H; inversion H; subst. split; auto.
-    intros k t1 Hin. apply in_app_or in Hin. destruct Hin as [Hin|[Hin|[]]]; [apply Hc; auto|].
-    inversion Hin; subst. simpl. split; auto. exists d; reflexivity.
 Qed.
 
-Lemma run_cache_ok : forall h c, entry_ok c -> entry_ok (run_cache key_eq_signed c h).
+Lemma run_cache_ok w named : forall h c, entry_ok w c -> entry_ok w (run_cache_v w named key_eq_signed c h).
 Proof.
   induction h as [|[l d] t IH]; simpl; intros c Hc; auto.
-  destruct (get_or_create key_eq_signed c l d) as [[c' t0]|] eqn:E; [|auto].
+  destruct (get_or_create_v w named key_eq_signed c l d) as [[c' t0]|] eqn:E; [|auto].
   apply IH. eapply get_or_create_ok; eauto.
 Qed.
 
 (* With the sign-aware key: whatever was requested before, the tensor handed out for (l, d) is
-   the tensor (l, d) denotes on its own -- distinct literals never share a tensor of a different value *)
-Theorem cache_never_conflates : forall h l d c' t,
-  get_or_create key_eq_signed (run_cache key_eq_signed [] h) l d = OK (c', t) ->
-  create l (resolve l d) = OK t.
+   the tensor (l, d) denotes on its own -- distinct literals never share a tensor of a different value.
+   For every variant of the code (w: wrapping creation, named: fall-through path repaired). *)
+Theorem cache_never_conflates : forall w named h l d c' t,
+  get_or_create_v w named key_eq_signed (run_cache_v w named key_eq_signed [] h) l d = OK (c', t) ->
+  denote_v w l d = OK t.
 Proof.
-  intros h l d c' t H.
-  assert (Hc : entry_ok (run_cache key_eq_signed [] h)).
+  intros w named h l d c' t H.
+  assert (Hc : entry_ok w (run_cache_v w named key_eq_signed [] h)).
   { apply run_cache_ok. intros k t0 []. }
   eapply get_or_create_ok; eauto.
 Qed.
@@ -797,6 +816,193 @@ Theorem cache_eq_key_conflates :
 Proof.
   exists [(LScalar (SFloat false 0 0), Some FLOAT)], (LScalar (SFloat true 0 0)), (Some FLOAT).
   eexists; eexists; split; [vm_compute; reflexivity|vm_compute; discriminate].
+Qed.
+
+(* ------------------------------------------------------------------------------------------ *)
+(* list literals outside the plain ones                                                       *)
+
+Lemma forallb_kind_head k (ss : list scalar) :
+  (forall s, In s ss -> kind_of s = k) -> all_kind k ss = true.
+Proof.
+  intros H. unfold all_kind. apply forallb_forall. intros x Hx. rewrite (H x Hx). destruct k; reflexivity.
+Qed.
+
+(* every scalar and every FLAT list whose elements have one Python type is plain *)
+Theorem plain_of_homog : forall l, is_nested l = false -> lit_homog l -> plainb l = true.
+Proof.
+  intros l Hn Hh. unfold plainb. destruct l as [s|h t|h t]; simpl in Hn; [| |discriminate].
+  - unfold default_dtype, ir_default_dtype. simpl. destruct (kind_of s); reflexivity.
+  - unfold lit_homog in Hh. simpl in Hh.
+    assert (Hall : all_kind (kind_of h) (h :: t) = true) by (apply forallb_kind_head; exact Hh).
+    apply andb_true_iff. split.
+    + simpl. apply forallb_forall. intros x Hx. rewrite (Hh x (or_intror Hx)). destruct (kind_of h); reflexivity.
+    + apply N.eqb_eq. unfold ir_default_dtype, default_dtype, numpy_infer. simpl head_of.
+      destruct (kind_of h) eqn:Ek; rewrite Hall; try reflexivity.
+      * (* float: all_kind KInt is false since the head is a float *)
+        assert (Hi : all_kind KInt (h :: t) = false) by (simpl; rewrite Ek; reflexivity).
+        rewrite Hi. reflexivity.
+      * assert (Hi : all_kind KInt (h :: t) = false) by (simpl; rewrite Ek; reflexivity).
+        assert (Hf : all_kind KFloat (h :: t) = false) by (simpl; rewrite Ek; reflexivity).
+        rewrite Hi, Hf. reflexivity.
+Qed.
+
+Definition ex_abs : schema := mkS "Abs" 13 [mkF "X" "T" OSingle true] [("T", 81150%N)].
+Definition nested_half := LNested (SFloat false 1 1) [].
+Definition mixed_1_2h := LList (SInt 1) [SFloat false 5 1].
+
+(* a nested list of floats with no sibling: the converter's ir.tensor leaves the dtype to numpy
+   (float64 = DOUBLE), eager mode goes by the first element (FLOAT) -- known finding *)
+Theorem static_nested_float_refuted :
+  schema_okb ex_abs = true /\
+  promote_static ex_abs [ALit nested_half] = OK [OConst nested_half DOUBLE] /\
+  promote_eager ex_abs [ALit nested_half] = OK [OConst nested_half FLOAT].
+Proof. repeat split; vm_compute; reflexivity. Qed.
+
+(* a flat list mixing int and float with no sibling: DOUBLE [1.0, 2.5] in the translated graph,
+   INT64 [1, 2] in eager mode -- different type AND different value *)
+Theorem static_mixed_list_refuted :
+  promote_static ex_abs [ALit mixed_1_2h] = OK [OConst mixed_1_2h DOUBLE] /\
+  promote_eager ex_abs [ALit mixed_1_2h] = OK [OConst mixed_1_2h INT64] /\
+  out_value (OConst mixed_1_2h DOUBLE) = OK [VF false 1 0; VF false 5 1] /\
+  out_value (OConst mixed_1_2h INT64) = OK [VI 1%Z; VI 2%Z].
+Proof. repeat split; vm_compute; reflexivity. Qed.
+
+(* the builder as read refuses exactly the literals outside the cached path ... *)
+Theorem builder_refuses_iff : forall a y l, a = ALit l ->
+  (cast_builder_v false a y = ORefuse l <-> builder_list_ok l = false).
+Proof.
+  intros a y l Ha. subst a. unfold cast_builder_v. rewrite orb_false_r.
+  destruct (builder_list_ok l); split; intros H; try reflexivity; try discriminate.
+  destruct y as [[d [|]]|]; discriminate.
+Qed.
+Theorem builder_refuses_mixed_refuted :
+  promote_builder_v false ex_abs [ALit mixed_1_2h] = OK [ORefuse mixed_1_2h] /\
+  promote_eager ex_abs [ALit mixed_1_2h] = OK [OConst mixed_1_2h INT64].
+Proof. split; vm_compute; reflexivity. Qed.
+(* ... and the repaired builder refuses none *)
+Theorem builder_never_refuses_fixed : forall a y l, cast_builder_v true a y <> ORefuse l.
+Proof.
+  intros a y l. unfold cast_builder_v. destruct a as [d k|l'|]; try discriminate.
+  rewrite orb_true_r. destruct y as [[d [|]]|]; discriminate.
+Qed.
+
+(* ------------------------------------------------------------------------------------------ *)
+(* the repaired conversion: creation with Cast semantics = Constant + CastLike, errors included  *)
+
+Lemma cast_paths_agree_scalar_fixed s d v0 :
+  np_cast_scalar s (default_of_kind (kind_of s)) = OK v0 ->
+  np_cast_scalar_v true s d = onnx_cast v0 d.
+Proof.
+  unfold np_cast_scalar_v, np_cast_scalar, onnx_cast.
+  destruct s as [z|n m e|b]; simpl kind_of; simpl default_of_kind; simpl dclass_of; cbv iota.
+  - destruct (in_range true 64 z); [|discriminate]. intros H0; inversion H0; subst v0; clear H0.
+    destruct (dclass_of d); reflexivity.
+  - intros H0; inversion H0; subst v0; clear H0. destruct (dclass_of d); reflexivity.
+  - intros H0; inversion H0; subst v0; clear H0. destruct (dclass_of d); reflexivity.
+Qed.
+
+Lemma mapM_paths_fixed (ss : list scalar) k d : (forall s, In s ss -> kind_of s = k) ->
+  forall v0s, mapM (fun s => np_cast_scalar s (default_of_kind k)) ss = OK v0s ->
+  mapM (fun s => np_cast_scalar_v true s d) ss = mapM (fun v => onnx_cast v d) v0s.
+Proof.
+  induction ss as [|s t IH]; intros Hk v0s H0.
+  - cbn [mapM] in *. inversion H0; reflexivity.
+  - cbn [mapM] in H0.
+    destruct (np_cast_scalar s (default_of_kind k)) as [v0|] eqn:E3; cbn [bind] in H0; [|discriminate].
+    destruct (mapM (fun s => np_cast_scalar s (default_of_kind k)) t) as [v0t|] eqn:E4; cbn [bind] in H0; [|discriminate].
+    inversion H0; subst. cbn [mapM].
+    rewrite <- (Hk s (or_introl eq_refl)) in E3.
+    rewrite (cast_paths_agree_scalar_fixed s d v0 E3).
+    rewrite (IH (fun x Hx => Hk x (or_intror Hx)) v0t eq_refl). reflexivity.
+Qed.
+
+(* with the repaired (wrapping) creation the two paths agree on EVERY target dtype, refusals included:
+   no hypothesis that the direct creation succeeds (compare cast_paths_agree) *)
+Theorem cast_paths_agree_fixed : forall l d v0s,
+  lit_homog l -> np_cast l (default_dtype l) = OK v0s ->
+  np_cast_v true l d = cast_like l (default_dtype l) d.
+Proof.
+  intros l d v0s Hh H0. unfold cast_like. rewrite H0. simpl.
+  unfold np_cast_v, np_cast, default_dtype in *. eapply mapM_paths_fixed; eauto.
+Qed.
+
+(* ------------------------------------------------------------------------------------------ *)
+(* the decision tables read from the code are the three algorithms                             *)
+
+Lemma tail_info_g_true s f : tail_info_g true s f = tail_info s f.
+Proof. unfold tail_info_g, tail_info. destruct (f_homog f); reflexivity. Qed.
+Lemma positions_g_true s n : positions_g true s n = positions s n.
+Proof.
+  unfold positions_g, positions. destruct (Nat.leb n (List.length (s_formals s))); auto.
+  destruct (last_opt (s_formals s)) as [f|]; auto. rewrite tail_info_g_true. reflexivity.
+Qed.
+Lemma annotate_g_true s args : annotate_g true s args = annotate s args.
+Proof. unfold annotate_g, annotate. rewrite positions_g_true. reflexivity. Qed.
+
+Theorem promote_of_static : forall named s args, promote_of named dec_static s args = promote_static s args.
+Proof. intros. unfold promote_of, promote_static; simpl. rewrite annotate_g_true. reflexivity. Qed.
+Theorem promote_of_eager : forall named s args, promote_of named dec_eager s args = promote_eager s args.
+Proof. intros. unfold promote_of, promote_eager; simpl. rewrite annotate_g_true. reflexivity. Qed.
+Theorem promote_of_builder : forall named s args, promote_of named dec_builder s args = promote_builder_v named s args.
+Proof. intros. unfold promote_of, promote_builder_v; simpl. rewrite annotate_g_true. reflexivity. Qed.
+
+(* the records read from the python ast (regenerated on every run) make promote_of the three modelled
+   algorithms: an edited branch condition changes a flag and this theorem no longer holds *)
+Theorem code_tables_are_model_instances :
+  (forall named s args, promote_of named OV.Gen.C12Decisions.static s args = promote_static s args) /\
+  (forall named s args, promote_of named OV.Gen.C12Decisions.eager s args = promote_eager s args) /\
+  (forall named s args, promote_of named OV.Gen.C12Decisions.builder s args = promote_builder_v named s args).
+Proof.
+  assert (Hs : OV.Gen.C12Decisions.static = dec_static) by reflexivity.
+  assert (He : OV.Gen.C12Decisions.eager = dec_eager) by reflexivity.
+  assert (Hb : OV.Gen.C12Decisions.builder = dec_builder) by reflexivity.
+  rewrite Hs, He, Hb. repeat split; intros.
+  - apply promote_of_static. - apply promote_of_eager. - apply promote_of_builder.
+Qed.
+
+(* a flag that matters: without the heterogeneous-variadic guard (Loop / Scan state) the generic
+   algorithm gives a float literal in the tail the type of an unrelated state variable *)
+Definition ex_loop : schema :=
+  mkS "Loop" 16 [mkF "M" "I" OOptional true; mkF "cond" "B" OOptional true; mkF "v_initial" "V" OVariadic false]
+      [("V", 131070%N); ("I", 128%N); ("B", 512%N)].
+Definition dec_no_hetero_guard : decisions :=
+  mkD KeyConstraintName true true true false true true false BindInfoNotNone InfoTensorDtype CreateAtBound true true.
+Theorem hetero_guard_matters :
+  promote_of false dec_eager ex_loop [ANone; ANone; ATensor INT64 true; ALit (LScalar (SFloat false 5 1))]
+    = OK [OKeep ANone; OKeep ANone; OKeep (ATensor INT64 true); OConst (LScalar (SFloat false 5 1)) FLOAT] /\
+  promote_of false dec_no_hetero_guard ex_loop [ANone; ANone; ATensor INT64 true; ALit (LScalar (SFloat false 5 1))]
+    = OK [OKeep ANone; OKeep ANone; OKeep (ATensor INT64 true); OConst (LScalar (SFloat false 5 1)) INT64].
+Proof. split; vm_compute; reflexivity. Qed.
+
+(* ------------------------------------------------------------------------------------------ *)
+(* the other caches on the path, and keys that would not do                                    *)
+
+(* converter: cached_int_consts[value] (slice bounds, Python ints under ==): distinct ints never share *)
+Theorem int_key_injective : forall a b, py_eq (SInt a) (SInt b) = true ->
+  np_cast (LList (SInt a) []) INT64 = np_cast (LList (SInt b) []) INT64.
+Proof. intros a b H. apply py_eq_int_int in H. subst. reflexivity. Qed.
+
+(* a type-insensitive key made of the VALUE only (no dtype component): 1 and True are == and hash alike,
+   but denote an INT64 and a BOOL tensor *)
+Theorem value_only_key_refuted :
+  exists l1 l2, list_eqb py_eq (scalars_of l1) (scalars_of l2) = true /\ is_list l1 = is_list l2 /\
+                denote_v false l1 None <> denote_v false l2 None.
+Proof. exists (LScalar (SInt 1)), (LScalar (SBool true)). repeat split. vm_compute. discriminate. Qed.
+
+(* a key (value, dtype) compared with Python == (functools.lru_cache, a plain dict): 0.0 and -0.0 are ==
+   and hash alike but denote tensors of different value at every float dtype; with the dtype in the key
+   True / 1 / 1.0 are harmless (they denote the same tensor at one dtype) *)
+Theorem eq_value_dtype_key_refuted :
+  exists a b d, py_eq a b = true /\ np_cast_scalar a d <> np_cast_scalar b d.
+Proof. exists (SFloat false 0 0), (SFloat true 0 0), FLOAT. split; vm_compute; [reflexivity|discriminate]. Qed.
+Theorem eq_key_true_one_harmless : forall d,
+  np_cast_scalar (SBool true) d = np_cast_scalar (SInt 1) d /\
+  np_cast_scalar (SFloat false 1 0) d = np_cast_scalar (SInt 1) d.
+Proof.
+  intros d. split.
+  - symmetry. apply (np_cast_int_bool true).
+  - unfold np_cast_scalar. destruct (dclass_of d) as [sg bits| | |] eqn:Hd; auto.
+    apply dclass_bits in Hd. destruct Hd as [?|[?|[?|?]]]; subst bits; destruct sg; reflexivity.
 Qed.
 
 (* ------------------------------------------------------------------------------------------ *)
@@ -865,6 +1071,14 @@ Proof.
   - intros s1 s2 k d1 d2 k1 k2 H1 H2 _ _ T1 T2. vm_compute in H1, H2.
     destruct H1 as [H1|[H1|[H1|[]]]], H2 as [H2|[H2|[H2|[]]]]; subst; simpl in *; congruence.
 Qed.
+
+Example ex_cast_paths_fixed : lit_homog (LScalar (SInt (-3))) /\
+  np_cast_v true (LScalar (SInt (-3))) UINT8 = OK [VI 253%Z] /\
+  cast_like (LScalar (SInt (-3))) INT64 UINT8 = OK [VI 253%Z].
+Proof. split; [|split; vm_compute; reflexivity]. intros s [H|[]]; subst; reflexivity. Qed.
+
+Example ex_plain : plainb (LList (SInt 1) [SInt 2]) = true /\ plainb nested_half = false /\ plainb mixed_1_2h = false.
+Proof. repeat split; vm_compute; reflexivity. Qed.
 
 Example ex_cast_paths : lit_homog (LScalar (SFloat false 5 1)) /\
   np_cast (LScalar (SFloat false 5 1)) INT64 = OK [VI 2%Z] /\
